@@ -56,7 +56,7 @@ fn once(input: &[u8]) -> (String, Option<Vec<u8>>) {
 /// Third run set: parse, GC (so that the function arena has tombstones), then the same edit of every local
 /// function - through `iter_local_mut` in the serial flavour, through the public `par_iter_local_mut` (rayon)
 /// in the parallel flavour - and emit. The parallel iterators must yield exactly the live local functions.
-fn once_edited(input: &[u8]) -> (String, Option<Vec<u8>>) {
+fn once_edited(input: &[u8], lite: bool) -> (String, Option<Vec<u8>>) {
     let cfg = cfg_from_mask(DEFAULT_CFG);
     match guarded(|| {
         cfg.parse(input).map(|mut m| {
@@ -69,7 +69,7 @@ fn once_edited(input: &[u8]) -> (String, Option<Vec<u8>>) {
             // `by_name` documents that it returns the first function of that name
             let ids: Vec<walrus::FunctionId> = m.funcs.iter().map(|f| f.id()).collect();
             let n = ids.len();
-            let prefix = "n".repeat(600);
+            let prefix = "n".repeat(if lite { 40 } else { 600 });
             for (i, id) in ids.iter().enumerate() {
                 m.funcs.get_mut(*id).name = Some(format!("{}{}", prefix, i));
             }
@@ -82,7 +82,7 @@ fn once_edited(input: &[u8]) -> (String, Option<Vec<u8>>) {
                     dups.push((name, ids[cut - 1]));
                 }
             }
-            for round in 0..25 {
+            for round in 0..(if lite { 2 } else { 25 }) {
                 for (name, first) in &dups {
                     let got = m.funcs.by_name(name);
                     if got != Some(*first) {
@@ -148,7 +148,7 @@ fn once_edited(input: &[u8]) -> (String, Option<Vec<u8>>) {
 
 #[cfg(not(feature = "parallel"))]
 pub fn run(input: &[u8], _scn: &str, rec: &mut Rec) {
-    let (v3, out3) = once_edited(input);
+    let (v3, out3) = once_edited(input, _scn.ends_with(":lite"));
     rec.push_s("verdict_ed", &v3);
     if let Some(o) = out3 {
         rec.push_b("out_ed", &o);
@@ -330,7 +330,7 @@ pub fn run(input: &[u8], scn: &str, rec: &mut Rec) {
             Ok(p) => p,
             Err(_) => continue,
         };
-        let (v, out) = pool.install(|| once_edited(input));
+        let (v, out) = pool.install(|| once_edited(input, lite));
         runs += 1;
         match &first_ed {
             None => {
